@@ -43,6 +43,7 @@ type topo struct {
 	Raw    []bool   `json:"raw"`   // forwarding raw BUS member / raw STAR member
 	Counts []int    `json:"counts"`
 	Conc   bool     `json:"concurrent"`
+	Tight  int      `json:"tight_member"` // cooked BUS member with READQ-LEN 1 (may itself miss messages; what it sends must still reach everybody), -1: none
 	Fwd    string   `json:"forwarder"` // raw BUS members forward with Device, a RecvMsg/SendMsg loop, or a loop that re-sends every message twice through a Clone
 	Tr     string   `json:"transport"`
 	RSeed  string   `json:"rseed"`
@@ -102,6 +103,10 @@ func genTopo(t *rapid.T) topo {
 	}
 	tp.Conc = rapid.Bool().Draw(t, "concurrent")
 	tp.Fwd = "device"
+	tp.Tight = -1
+	if (tp.Kind == "bus-mesh" || tp.Kind == "bus-chain") && rapid.IntRange(0, 2).Draw(t, "tight") == 0 {
+		tp.Tight = rapid.IntRange(0, tp.N-1).Draw(t, "tightMember")
+	}
 	if tp.Kind == "bus-chain-fwd" {
 		tp.Fwd = rapid.SampledFrom([]string{"device", "loop", "loop-clone2"}).Draw(t, "forwarder")
 	}
@@ -222,6 +227,12 @@ func TestC08(t *testing.T) {
 			socks[i] = fixture.New(name)
 			evs[i] = fixture.Hook(socks[i])
 			_ = socks[i].SetOption(mangos.OptionRecvDeadline, 5*time.Second)
+			if i == tp.Tight {
+				// a short receive queue is this member's own business: its sends use the write queue
+				if err := socks[i].SetOption(mangos.OptionReadQLen, 1); err != nil {
+					t.Fatalf("harness: %v", err)
+				}
+			}
 			if tp.Fwd == "loop-clone2" {
 				// doubled volumes must still stay below the queue lengths
 				_ = socks[i].SetOption(mangos.OptionWriteQLen, 512)
@@ -345,7 +356,7 @@ func TestC08(t *testing.T) {
 			done := true
 			gmu.Lock()
 			for i := range socks {
-				if total(got[i]) < total(exp[i]) {
+				if i != tp.Tight && total(got[i]) < total(exp[i]) {
 					done = false
 				}
 			}
@@ -385,7 +396,7 @@ func TestC08(t *testing.T) {
 			gmu.Lock()
 			for i := range socks {
 				for tag := range expSent[i] {
-					if !sentinelSeen[i][tag] {
+					if i != tp.Tight && !sentinelSeen[i][tag] {
 						done = false
 					}
 				}
@@ -430,6 +441,8 @@ func TestC08(t *testing.T) {
 					fail("unexpected-delivery", "member %d received %s (%d times) although it must not reach it (cooked BUS does not forward; forwarding skips the arrival pipe)", i, k, g)
 				case g > e:
 					fail("duplicate", "member %d received %s %d times, want %d", i, k, g, e)
+				case i == tp.Tight:
+					continue // its one-slot receive queue may drop
 				default:
 					fail("missing", "member %d received %s %d times, want %d (queues were far from full)", i, k, g, e)
 				}
@@ -438,6 +451,9 @@ func TestC08(t *testing.T) {
 		}
 		stats.Eval()
 		stats.Class("kind:" + tp.Kind)
+		if tp.Tight >= 0 {
+			stats.Class("member_with_readq_1")
+		}
 		if tp.Kind == "bus-chain-fwd" && firstRaw(tp) >= 0 {
 			stats.Class("forwarder:" + tp.Fwd)
 		}
@@ -446,7 +462,7 @@ func TestC08(t *testing.T) {
 			stats.Class("concurrent")
 		}
 		if tp.N >= 3 {
-			stats.NonTrivial(fmt.Sprintf("%s|%v|%v|%v|%v|%s|%s", tp.Kind, tp.Edges, tp.Raw, tp.Counts, tp.Conc, tp.Tr, tp.Fwd))
+			stats.NonTrivial(fmt.Sprintf("%s|%v|%v|%v|%v|%s|%s", tp.Kind, tp.Edges, tp.Raw, tp.Counts, tp.Conc, tp.Tr, tp.Fwd+fmt.Sprint(tp.Tight)))
 		}
 		stats.Sample(tp)
 	})
